@@ -208,10 +208,28 @@ func c16Ops() []c16Op {
 				b := w.resp[n]
 				out = append(out, append([]byte{}, b[:len(b)-min(cut, len(b))]...))
 			}
+			// lists cut at an element boundary (the declared length then points past the end) and lists whose
+			// declared length was enlarged with nothing behind them
+			b := w.resp["batch"]
+			drop := []int{len(w.resp["req1"]), len(w.resp["req1"]) + len(w.resp["req2"])}[r.IntN(2)]
+			out = append(out, append([]byte{}, b[:len(b)-drop]...))
+			grown := append([]byte{}, b...)
+			_, n := quicwire.ConsumeVarint(grown)
+			grown[n-1] += byte(1 + r.IntN(6))
+			out = append(out, grown)
+			br := w.resp["batchresp"]
+			out = append(out, append([]byte{}, br[:len(br)-(2+len(w.resp["resp2"]))]...))
 			return out
 		}, func(w *c03World, a [][]byte) string {
 			q1, q2, q3, q5, qi, qb := &type1.BasicPrivateTokenRequest{}, &type2.BasicPublicTokenRequest{}, &type3.RateLimitedTokenRequest{}, &type5.BatchedPrivateTokenRequest{}, &type3.InnerTokenRequest{}, &batched.BatchedTokenRequest{}
-			out := fmt.Sprint(q1.Unmarshal(a[0]), q2.Unmarshal(a[1]), q3.Unmarshal(a[2]), q5.Unmarshal(a[3]), qi.Unmarshal(a[4]), qb.Unmarshal(a[5]))
+			extra := ""
+			for _, b := range a[16:18] {
+				qx := &batched.BatchedTokenRequest{}
+				extra += fmt.Sprint(qx.Unmarshal(b), len(qx.VerifRequests()))
+			}
+			rx, ex := batched.UnmarshalBatchedTokenResponses(a[18])
+			extra += hxList(rx) + fmt.Sprint(ex == nil)
+			out := extra + fmt.Sprint(q1.Unmarshal(a[0]), q2.Unmarshal(a[1]), q3.Unmarshal(a[2]), q5.Unmarshal(a[3]), qi.Unmarshal(a[4]), qb.Unmarshal(a[5]))
 			out += hxv(q1.BlindedReq) + hxv(q2.BlindedReq) + hxv(q3.EncryptedTokenRequest) + hxv(q3.Signature) + hxList(q5.BlindedReq)
 			for _, tr := range qb.VerifRequests() {
 				out += hxv(tr.Marshal())
